@@ -1269,13 +1269,25 @@ func (x *c11) blockingCall(R string, fi *FuncInfo, call *ast.CallExpr, kind stri
 		o.Bad("a path from the Select reaches %s without comparing the chosen index with the position of env.%s", leak, a.fDoneCase.Name())
 		return
 	}
+	viaFlag := false
 	for _, t := range tests {
 		if ok, why := x.exitsViaStop(c, t.b.Succs[0], 0); !ok {
+			// the Select may sit in a helper that reports the done case to its callers
+			if fok, fwhy := x.exitsViaFlag(fi, c, t.b.Succs[0]); fok {
+				viaFlag = true
+				continue
+			} else if fwhy != "" {
+				why = fwhy
+			}
 			o.Bad("when the done case is chosen (%s == %s) the loop is not left through the stop function: %s", chosen.Name(), exprStr(t.idx), why)
 			return
 		}
 	}
-	o.OK("env.%s is appended to %s on every path to the Select, %s is compared with the done index on every path leaving it, and the equal edge returns through the stop function", a.fDoneCase.Name(), sliceStr, chosen.Name())
+	if viaFlag {
+		o.OK("env.%s is appended to %s on every path to the Select, %s is compared with the done index on every path leaving it, the equal edge reports the done case to the caller, and every caller tests that result and returns through the stop function", a.fDoneCase.Name(), sliceStr, chosen.Name())
+	} else {
+		o.OK("env.%s is appended to %s on every path to the Select, %s is compared with the done index on every path leaving it, and the equal edge returns through the stop function", a.fDoneCase.Name(), sliceStr, chosen.Name())
+	}
 
 	// position agreement
 	o2 := r.Ob(R, where+kind+"/done-index", tests[0].idx.Pos())
@@ -1948,6 +1960,85 @@ func (x *c11) r4() {
 	}
 }
 
+// wiredHelper decides the context wiring when the public Run method obtains its VM from a helper of the
+// package: every return of the helper hands back the VM on which the setter was called, and a return is
+// reached without the setter only over an edge on which the options (or their context) are nil.
+func (x *c11) wiredHelper(o *Obl, g, h *FuncInfo) {
+	r, a := x.r, x.a
+	info := h.Pkg.TypesInfo
+	var set *ast.CallExpr
+	var ctxField *types.Var
+	var hv types.Object
+	for _, cl := range c11CallsTo(info, h.Decl.Body, a.setCtx.Obj, false) {
+		se, ok := ast.Unparen(cl.Fun).(*ast.SelectorExpr)
+		if !ok || len(cl.Args) != 1 {
+			continue
+		}
+		if f := c11FieldOf(info, cl.Args[0]); f != nil && typeStr(f.Type()) == "context.Context" {
+			set, ctxField, hv = cl, f, c11ObjOf(info, se.X)
+		}
+	}
+	if set == nil || hv == nil {
+		o.Bad("%s runs the VM made by %s, which does not pass RunOptions' context to %s", g.Name(), h.Name(), a.setCtx.Name())
+		return
+	}
+	optObj := types.Object(nil)
+	if se, ok := ast.Unparen(set.Args[0]).(*ast.SelectorExpr); ok {
+		optObj = c11ObjOf(info, se.X)
+	}
+	c := r.P.CFGOf(h)
+	nilEdge := func(b *cfg.Block, i int) bool {
+		for _, l := range c.edgeLits(b, i) {
+			if e, isNil, ok := c11LitNil(info, l); ok && isNil {
+				if c11FieldOf(info, e) == ctxField || (optObj != nil && c11ObjOf(info, e) == optObj) {
+					return true
+				}
+			}
+		}
+		return false
+	}
+	setBlk, _ := c.Locate(set)
+	if setBlk == nil {
+		o.Unknown("setter call not located in the graph of %s", h.Name())
+		return
+	}
+	nret := 0
+	bad := ""
+	ast.Inspect(h.Decl.Body, func(n ast.Node) bool {
+		if _, ok := n.(*ast.FuncLit); ok {
+			return false
+		}
+		rs, ok := n.(*ast.ReturnStmt)
+		if !ok {
+			return true
+		}
+		nret++
+		if len(rs.Results) < 1 || c11ObjOf(info, rs.Results[0]) != hv {
+			bad = "a return of " + h.Name() + " does not hand back the VM the context was set on"
+			return true
+		}
+		rb, _ := c.Locate(rs)
+		if rb == nil {
+			bad = "return not located in the graph"
+			return true
+		}
+		if c.reachable(c.G.Blocks[0], rb, nilEdge, func(b *cfg.Block) bool { return b == setBlk }) {
+			bad = "with a non-nil " + exprStr(set.Args[0]) + " " + h.Name() + " can return the VM without " + a.setCtx.Name() + " having been called"
+		}
+		return true
+	})
+	switch {
+	case nret == 0:
+		o.Unknown("%s has no return statement", h.Name())
+	case strings.HasPrefix(bad, "return not"):
+		o.Unknown("%s", bad)
+	case bad != "":
+		o.Bad("%s", bad)
+	default:
+		o.OK("%s takes its VM from %s, every return of which is reached with %s != nil only after %s(%s) on the returned VM", g.Name(), h.Name(), exprStr(set.Args[0]), a.setCtx.Name(), exprStr(set.Args[0]))
+	}
+}
+
 func (x *c11) publicRun(R string, g *FuncInfo, info *types.Info, run *ast.CallExpr) {
 	r, a := x.r, x.a
 	o := r.Ob(R, g.Name()+"#context-wired", run.Pos())
@@ -1968,6 +2059,22 @@ func (x *c11) publicRun(R string, g *FuncInfo, info *types.Info, run *ast.CallEx
 		}
 	}
 	if set == nil {
+		// the VM may come from a constructor helper of the package that wires the options: `vm := newVM(options)`
+		if v, ok := vmObj.(*types.Var); ok {
+			rhs, clean := c11Defs(info, g.Decl.Body, v)
+			if clean && len(rhs) == 1 {
+				if hc, ok := ast.Unparen(rhs[0]).(*ast.CallExpr); ok {
+					if hf := callee(info, hc); hf != nil {
+						for _, h := range r.P.Funcs("") {
+							if h.Obj == hf && !r.P.isTestFile(h.File) {
+								x.wiredHelper(o, g, h)
+								return
+							}
+						}
+					}
+				}
+			}
+		}
 		o.Bad("%s runs the VM without passing RunOptions' context to %s on the same VM", g.Name(), a.setCtx.Name())
 		return
 	}
